@@ -259,3 +259,9 @@ Proof.
   eexists. eexists. split; [vm_compute; reflexivity|]. split; [reflexivity|].
   repeat (apply Forall2_cons; [vm_compute; reflexivity|]). apply Forall2_nil.
 Qed.
+
+(* the checker accepts the output of the example above and rejects a threshold below the band *)
+Example ex_check :
+  check_thresholds Qmult (Some (Qmake 1 10)) (Some (Qmake 3 5)) (Qmake 3 5) true [band_lo * (3 # 5); 1 # 2; 3 # 5] = true /\
+  check_thresholds Qmult (Some (Qmake 1 10)) (Some (Qmake 3 5)) (Qmake 3 5) true [2 # 5] = false.
+Proof. split; vm_compute; reflexivity. Qed.
